@@ -43,11 +43,14 @@ def cases(tier):
     chains = ["V1", "V2R", "V2V"]
     view_lcs = ["request_scoped"] if quick else ["request_scoped", "transient"]
     mws = [None, "pre", "wrap"] if quick else [None, "pre", "wrap", "post"]  # wrap: the view travels through a `Next` state struct
-    for x, t0_lc, chain, view_lc, hmode, extra, mw in itertools.product(xs, t0_lcs, chains, view_lcs, ["V", "R"], ["0", "R", "V", "A"], mws):
+    # el: the view constructors written with elided lifetimes (C_V1E*, C_V2RE*, C_V2VE*); quick: only without a middleware
+    for x, t0_lc, chain, view_lc, hmode, extra, mw, el in itertools.product(xs, t0_lcs, chains, view_lcs, ["V", "R"], ["0", "R", "V", "A"], mws, ["", "E"]):
+        if el and quick and mw:
+            continue
         fl, cl = FLAVS[x]
-        ops = [F.ctor_op(0, fl, "0", "s", t0_lc, cl), {"k": "ctor", "c": f"C_V1{fl}", "lc": view_lc}]
+        ops = [F.ctor_op(0, fl, "0", "s", t0_lc, cl), {"k": "ctor", "c": f"C_V1{el}{fl}", "lc": view_lc}]
         if chain != "V1":
-            ops.append({"k": "ctor", "c": f"C_{chain}{fl}", "lc": view_lc})
+            ops.append({"k": "ctor", "c": f"C_{chain}{el}{fl}", "lc": view_lc})
         if extra == "A":
             ops.append({"k": "ctor", "c": f"C_ARCH{fl}", "lc": "request_scoped"})
         if mw:
@@ -55,7 +58,7 @@ def cases(tier):
         top = "V1" if chain == "V1" else "V2"
         ops.append({"k": "route", "c": f"HLT_{fl}_{top}{hmode}_{extra}"})
         out.append((ops, {"kind": "A", "x": x, "fl": fl, "t0_lc": t0_lc, "chain": chain, "view_lc": view_lc, "hmode": hmode,
-                          "extra": extra, "mw": mw}))
+                          "extra": extra, "mw": mw, "elided": bool(el)}))
     # ---- LT-P
     for ctor, h, t0_lc in itertools.product(["C_PAIR_SAME", "C_PAIR_DIFF"], ["HLT_PAIR_V", "HLT_PAIR_R", "HLT_PAIR_NAMED"],
                                             ["request_scoped", "singleton"]):
